@@ -200,6 +200,10 @@ Definition get_ymd (s : text) : option (Z * Z * Z * text) :=
 
 Definition day_ok (y m d : Z) : bool := (1 <=? d) && (d <=? days_in_month y m).
 
+(* envs.IsWritableOffset: time.Parse lets the offset hour be 24 and the minute 60, and +24:60 is an offset of 25 hours,
+   which is written +25:00 and refused by every reader; DateTimeFromString does not take such a text as ISO *)
+Definition writable_offset (zo : Z) : bool := (-90000 <? zo) && (zo <? 90000).
+
 (* time.ParseInLocation with "2006-01-02T15:04:05Z07:00" (secs = true) or "2006-01-02T15:04Z07:00": the instant *)
 Definition parse_iso_layout (secs : bool) (s : text) : option Z :=
   bind (get_ymd s) (fun '(y, m, d, s) =>
@@ -216,7 +220,7 @@ Definition parse_iso_layout (secs : bool) (s : text) : option Z :=
         else Some (0, 0, s)) (fun '(sec, ns, s) =>
   bind (get_zone s) (fun '(zo, s) =>
   match s with
-  | [] => if day_ok y m d then Some ((wall_of y m d h mi sec - zo) * giga + ns) else None
+  | [] => if day_ok y m d && writable_offset zo then Some ((wall_of y m d h mi sec - zo) * giga + ns) else None
   | _ => None
   end))))))).
 
@@ -439,7 +443,8 @@ Definition adjust_hour (hour0 : Z) (is_pm is_am : bool) (minute second nanos : Z
                else if (hour0 =? 12) && is_am then hour0 - 12 else hour0 in
   if (hour1 =? 24) && (minute =? 0) && (second =? 0) && (nanos =? 0) then 0 else hour1.
 
-Definition clock_bad (hour minute second : Z) : bool := (24 <? hour) || (60 <? minute) || (60 <? second).
+(* hour > 23, minute > 59, second > 59 (24:00:00 has become 00:00:00 before this test) *)
+Definition clock_bad (hour minute second : Z) : bool := (23 <? hour) || (59 <? minute) || (59 <? second).
 
 (* parseTime: first match whose fields are in range *)
 Fixpoint pick_time (s : text) (ms : list (nat * tmatch)) : option tod :=
